@@ -560,6 +560,26 @@ func init() {
 		return r, true
 	}
 
+	// AppendMany(parts...) of the repository's key helpers: the concatenation of a statically known number of parts
+	appendMany := func(c *libCall) (Val, bool) {
+		sl := c.arg(0)
+		n, okn := constSliceLen(sl)
+		if !okn || n < 1 || n > 6 {
+			return nil, false
+		}
+		elemT := c.sig.Params().At(0).Type().Underlying().(*types.Slice).Elem()
+		r := c.st.SliceElem(sl, IntLit(0), elemT)
+		r.Sort = SBytes
+		for i := 1; i < n; i++ {
+			e := c.st.SliceElem(sl, IntLit(int64(i)), elemT)
+			e.Sort = SBytes
+			r = Cat(r, e)
+		}
+		return WithGo(c.st.Name("appended", r), c.sig.Results().At(0).Type()), true
+	}
+	libModels[RepoModule+"/x/operator/types.AppendMany"] = appendMany
+	libModels[RepoModule+"/x/appchain/coordinator/types.AppendMany"] = appendMany
+
 	libModels["strings.Join"] = func(c *libCall) (Val, bool) {
 		sl := c.arg(0)
 		sepv, ok := c.args[1].(T)
